@@ -37,10 +37,15 @@ const (
 	lExpired                   // names S,O,P, window ended 24h before T0
 	lNotYet                    // names S,O,P, window starts 24h after T0
 	lLong                      // names S,O,P, valid at T0, NotAfter later than the CA's NotAfter
+	// chains with an intermediate (leaf: names S,O,P, the usual valid window)
+	lIntT      // trusted root -> intermediate valid beyond the leaf's NotAfter -> leaf
+	lIntTShort // trusted root -> intermediate valid at T0 but expiring before the leaf -> leaf
+	lIntU      // untrusted root -> intermediate valid beyond the leaf's NotAfter -> leaf
+	lIntUShort // untrusted root -> intermediate expiring before the leaf -> leaf
 	nLeaf
 )
 
-var leafNames = [...]string{"all", "S", "O", "P", "W", "untrusted", "expired", "notyet", "long"}
+var leafNames = [...]string{"all", "S", "O", "P", "W", "untrusted", "expired", "notyet", "long", "intT", "intTshort", "intU", "intUshort"}
 
 func (k leafKind) String() string { return leafNames[k] }
 
@@ -49,7 +54,8 @@ type leaf struct {
 	der     []byte
 	cert    *x509.Certificate
 	tlsCert tls.Certificate
-	trusted bool
+	trusted bool                // issued (directly or through the intermediate) under the CA that is in RootCAs
+	inter   []*x509.Certificate // intermediates the server sends after the leaf
 }
 
 type pki struct {
@@ -113,13 +119,49 @@ func newPKI() *pki {
 	mk(lExpired, all, T0.Add(-48*time.Hour), T0.Add(-24*time.Hour), true)
 	mk(lNotYet, all, T0.Add(24*time.Hour), T0.Add(48*time.Hour), true)
 	mk(lLong, all, vb, T0.Add(96*time.Hour), true)
+	// intermediates: issued by the trusted / the untrusted root, outliving the leaf or expiring before it
+	mkInt := func(kind leafKind, trusted bool, ina time.Time) {
+		ik, err := ecdsa.GenerateKey(elliptic.P256(), rand.Reader)
+		if err != nil {
+			panic(err)
+		}
+		it := &x509.Certificate{SerialNumber: big.NewInt(int64(200 + kind)), Subject: pkix.Name{CommonName: "c14 intermediate " + kind.String()},
+			NotBefore: T0.Add(-2 * time.Hour), NotAfter: ina, IsCA: true, BasicConstraintsValid: true,
+			KeyUsage: x509.KeyUsageCertSign | x509.KeyUsageDigitalSignature}
+		ca, cak := p.ca, p.caKey
+		if !trusted {
+			ca, cak = p.ca2, p.ca2Key
+		}
+		ider, err := x509.CreateCertificate(rand.Reader, it, ca, &ik.PublicKey, cak)
+		if err != nil {
+			panic(err)
+		}
+		ic, _ := x509.ParseCertificate(ider)
+		t := &x509.Certificate{SerialNumber: big.NewInt(int64(100 + kind)), Subject: pkix.Name{CommonName: "c14 leaf " + kind.String()},
+			NotBefore: vb, NotAfter: va, DNSNames: all, KeyUsage: x509.KeyUsageDigitalSignature,
+			ExtKeyUsage: []x509.ExtKeyUsage{x509.ExtKeyUsageServerAuth}}
+		der, err := x509.CreateCertificate(rand.Reader, t, ic, &lk.PublicKey, ik)
+		if err != nil {
+			panic(err)
+		}
+		c, _ := x509.ParseCertificate(der)
+		p.leaves[kind] = &leaf{kind: kind, der: der, cert: c, trusted: trusted, inter: []*x509.Certificate{ic},
+			tlsCert: tls.Certificate{Certificate: [][]byte{der, ider}, PrivateKey: lk, Leaf: c}}
+	}
+	mkInt(lIntT, true, T0.Add(24*time.Hour))
+	mkInt(lIntTShort, true, T0.Add(6*time.Hour))
+	mkInt(lIntU, false, T0.Add(24*time.Hour))
+	mkInt(lIntUShort, false, T0.Add(6*time.Hour))
 	return p
 }
 
 // x509Verify is Go's own verifier with exactly the options given: the oracle for "the chain
 // verifies against RootCAs at time t and the leaf matches name" (name "" = no name check).
 func (p *pki) x509Verify(l *leaf, name string, t time.Time) error {
-	_, err := l.cert.Verify(x509.VerifyOptions{Roots: p.roots, CurrentTime: t, DNSName: name,
-		Intermediates: x509.NewCertPool()})
+	inter := x509.NewCertPool()
+	for _, ic := range l.inter {
+		inter.AddCert(ic) // what the server presents after the leaf
+	}
+	_, err := l.cert.Verify(x509.VerifyOptions{Roots: p.roots, CurrentTime: t, DNSName: name, Intermediates: inter})
 	return err
 }
